@@ -9,5 +9,5 @@ CONSTANTS
   PreOps <- PreSib
   SibFields <- SibAll
   TamperMax = 0
-INVARIANTS TypeOK PIdStable PRoundTrip PRedactKeeps PV12 PSibling PSiblingHash Emit
+INVARIANTS TypeOK PIdStable PRoundTrip PRedactKeeps PV12 PBuildOrRefuse PSibling PSiblingHash Emit
 CHECK_DEADLOCK FALSE
